@@ -208,7 +208,7 @@ def run(ctx):
     ctx.say("race-enabled harness builds: %s" % okg)
     rng = ctx.rng
     lines = []
-    n = ctx.scale(500, 12000)
+    n = ctx.scale(500, 5000)
     lines += [("routing-async", async_line(simlib.sim_line(simlib.gen_scenario(rng, addpath=0.3)))) for _ in range(n)]
     lines += [("policy-async", async_line(c15.sim_line(c15.gen_case(rng)))) for _ in range(n // 2)]
     lines += [("vrf-rtc-async", async_line(c17.sim_line(c17.gen_case(rng)))) for _ in range(n // 2)]
